@@ -442,6 +442,14 @@ def r7_guard_tests_converted_value(ctx, rule="C06.R7"):
     prog = ctx.prog
     fns = [f for f in prog.fns.values() if f.crate == "rusty_linter" and f.name == "try_cast" and f.impl
            and (f.impl.get("trait") or "").endswith("::QBNumberCast")]
+    # ... the helpers of the same file they hand the conversion to
+    for f in list(fns):
+        for c in prog.call_edges(f):
+            g = prog.fns.get(c)
+            if g is not None and g not in fns and g.file == f.file and g.kind == "fn" and g.body is not None and any(
+                    st["k"] == "assign" and st["r"].get("k") == "cast" and st["r"].get("ck") == "FloatToInt"
+                    for blk in g.body.blocks if not blk.get("c") for st in blk["s"]):
+                fns.append(g)
     # ... and the functions of the value arithmetic that pick the narrowest type for a float result
     fns += [f for f in prog.fns.values() if f.crate == "rusty_variant" and f.kind != "closure"
             and "Variant" in f.body.locals[0]["ty"]
